@@ -73,6 +73,7 @@ pub fn golden_histories() -> Vec<(String, History)> {
                 ops,
                 obs: Obs::default(),
                 excluded: 0,
+                quiet_prefix: 0,
             },
         ));
         // H2: deletes, overwrites and re-inserts, non-empty free lists, 128 buckets
@@ -120,6 +121,7 @@ pub fn golden_histories() -> Vec<(String, History)> {
                 ops,
                 obs: Obs::default(),
                 excluded: 0,
+                quiet_prefix: 0,
             },
         ));
         // H3: large slots, a large free slot left on the shared list, 1024 buckets
@@ -157,6 +159,7 @@ pub fn golden_histories() -> Vec<(String, History)> {
                 ops,
                 obs: Obs::default(),
                 excluded: 0,
+                quiet_prefix: 0,
             },
         ));
     }
@@ -300,8 +303,36 @@ fn static_checks(name: &str, w: &WCtx) -> Result<Report, Failure> {
         Ok(Report::default())
     });
     let after = read_files(&ctx.dir, "m");
+    // (2b) a freshly spawned process whose allocator places byte buffers at odd addresses sees the
+    // same contents (placement must depend on the key bytes and the table size only)
+    let child = {
+        use crate::childproc::{digest_model, run_verify_child_misaligned, DirMap, VerifyReq};
+        let keys: Vec<Vec<u8>> = h.maps[0].keys.iter().map(|k| k.bytes()).collect();
+        let req = VerifyReq {
+            dir: ctx.dir.to_string_lossy().to_string(),
+            maps: vec![DirMap {
+                name: "m".into(),
+                kt: exp.kt,
+                params: Params::plain(Buckets::BucketsSize(16)),
+                keys: keys.iter().map(|k| hex(k)).collect(),
+            }],
+        };
+        match run_verify_child_misaligned(&w.exe, &req, &ctx.dir) {
+            Ok(g) => {
+                if g.maps[0] != digest_model(&keys, &model) {
+                    Err(format!("golden image {name}: a process whose byte buffers live at odd addresses reads other contents: {:?} vs {:?}", g.maps[0], digest_model(&keys, &model)))
+                } else {
+                    Ok(())
+                }
+            }
+            Err(e) => Err(format!("golden image {name}: opening it in a process whose byte buffers live at odd addresses failed: {e}")),
+        }
+    };
     w.cleanup(&ctx.dir);
     r?;
+    if let Err(e) = child {
+        gfail!("{e}");
+    }
     let after = after.map_err(|e| Failure::new("infra", None, format!("read: {e}")))?;
     if after != files {
         gfail!("golden image {name}: files changed by read-only use under the current build");
@@ -355,6 +386,10 @@ pub struct C12Cont {
 }
 
 fn cont_strategy(tier: Tier, image: String, kt: Kt, keys: Vec<Key>) -> BoxedStrategy<C12Cont> {
+    cont_strategy_v(tier, image, kt, keys, false)
+}
+
+fn cont_strategy_v(tier: Tier, image: String, kt: Kt, keys: Vec<Key>, big: bool) -> BoxedStrategy<C12Cont> {
     let mut w = Weights::basic();
     w.flush = 2;
     w.sync = 1;
@@ -364,8 +399,8 @@ fn cont_strategy(tier: Tier, image: String, kt: Kt, keys: Vec<Key>) -> BoxedStra
     w.stats = 1;
     let cfg = OpsCfg {
         w,
-        val: ValProfile::Mixed,
-        n_ops: tier.pick(1..=120, 1..=300),
+        val: if big { ValProfile::Big } else { ValProfile::Mixed },
+        n_ops: if big { 1..=40 } else { tier.pick(1..=120, 1..=300) },
         reopen_params: None,
         reopen_child: false,
         max_batch: 8,
@@ -424,6 +459,7 @@ fn run_cont(c: &C12Cont, w: &WCtx) -> Result<Report, Failure> {
             ..Default::default()
         },
         excluded: 0,
+        quiet_prefix: 0,
     };
     let model = exp_model(&exp);
     let golden_keys: std::collections::BTreeSet<Vec<u8>> = model.keys().cloned().collect();
@@ -513,7 +549,8 @@ impl Prop for C12 {
                 }
             }
         };
-        let st = cont_strategy(tier, img, kt, keys);
+        // every 12th continuation stores values up to 16 MiB in the golden image
+        let st = cont_strategy_v(tier, img, kt, keys, index % 12 == 5);
         let mut out = run_generated(
             index,
             &st,
@@ -538,7 +575,7 @@ impl Prop for C12 {
         let root = crate::runner::verif_root();
         match load_golden(&root, &img) {
             Ok((_, exp, h)) => {
-                let st = cont_strategy(tier, img, exp.kt, cont_keys(&h));
+                let st = cont_strategy_v(tier, img, exp.kt, cont_keys(&h), index % 12 == 5);
                 json!({"Cont": draw(&st, case_seed(seed, "C12", index))})
             }
             Err(_) => json!(null),
